@@ -41,7 +41,8 @@
 (* changes the settings of the same keyspace (up to MaxAlters times): a done *)
 (* state with Len(hist) > 1 is a history "settings installed, replicas       *)
 (* looked up, settings altered, ..." whose expectations are those of the     *)
-(* last settings (C26 on get_replicas, C22 on token-aware plans).            *)
+(* last settings (C26 on get_replicas, C22 on token-aware plans).  MoveHost  *)
+(* changes a host's datacenter/rack (up to MaxMoves times) the same way.     *)
 EXTENDS Naturals, Sequences, FiniteSets, TLC
 
 CONSTANTS MaxHosts,     \* hosts are 1..n, n <= MaxHosts
@@ -50,7 +51,9 @@ CONSTANTS MaxHosts,     \* hosts are 1..n, n <= MaxHosts
           MaxRing,      \* number of tokens in the ring
           MaxRF,        \* SimpleStrategy rf in 1..MaxRF, NTS rf per dc in 0..MaxRF
           Lens,         \* ring lengths generated (subset of 1..MaxRing)
-          MaxAlters     \* how many times the keyspace's replication settings are altered afterwards
+          MaxAlters,    \* how many times the keyspace's replication settings are altered afterwards
+          MaxMoves,     \* how many times a host changes datacenter/rack (same address, same tokens) afterwards
+          MaxOps        \* alterations + moves together
 
 Min(a, b) == IF a < b THEN a ELSE b
 
@@ -150,8 +153,10 @@ VARIABLES len,        \* ring length this behaviour builds
           strat,      \* [kind |-> "none"] | [kind |-> "Simple", rf |-> n] | [kind |-> "NTS", rfs |-> <<..>>]
           expected,   \* ring position -> replica set          (valid when done)
           byKey,      \* key position 1..2L+1 -> replica set   (valid when done)
-          hist        \* every replication setting the keyspace has had, oldest first (strat is the last one)
-vars == <<len, ring, dc, rack, phase, strat, expected, byKey, hist>>
+          hist,       \* every replication setting the keyspace has had, oldest first (strat is the last one)
+          dc0, rack0, \* the hosts' locations when the ring was first built (dc, rack are the current ones)
+          log         \* what happened since, in order: [op |-> "alter", s] and [op |-> "move", h, d, r]
+vars == <<len, ring, dc, rack, phase, strat, expected, byKey, hist, dc0, rack0, log>>
 
 NHosts == Len(dc)
 UsedDCs == {dc[h] : h \in 1..NHosts}
@@ -162,13 +167,14 @@ Init == /\ len \in Lens
         /\ phase = "build"
         /\ strat = [kind |-> "none"]
         /\ expected = <<>> /\ byKey = <<>> /\ hist = <<>>
+        /\ dc0 = <<>> /\ rack0 = <<>> /\ log = <<>>
 
 \* a token owned by a host already in the ring
 OldToken(h) ==
     /\ phase = "build" /\ Len(ring) < len
     /\ h \in 1..NHosts
     /\ ring' = Append(ring, h)
-    /\ UNCHANGED <<len, dc, rack, phase, strat, expected, byKey, hist>>
+    /\ UNCHANGED <<len, dc, rack, phase, strat, expected, byKey, hist, dc0, rack0, log>>
 
 \* a token owned by a new host; datacenters and racks are introduced in order of first appearance
 NewToken(d, r) ==
@@ -179,15 +185,16 @@ NewToken(d, r) ==
     /\ ring' = Append(ring, NHosts + 1)
     /\ dc' = Append(dc, d)
     /\ rack' = Append(rack, r)
-    /\ UNCHANGED <<len, phase, strat, expected, byKey, hist>>
+    /\ UNCHANGED <<len, phase, strat, expected, byKey, hist, dc0, rack0, log>>
 
 Strategies ==
     {[kind |-> "Simple", rf |-> n] : n \in 1..MaxRF}
       \cup {[kind |-> "NTS", rfs |-> f] : f \in {g \in [1..MaxDCs -> 0..MaxRF] : \E d \in 1..MaxDCs : g[d] > 0}}
 
-ReplicasAt(s, i) ==
+ReplicasIn(s, i, dcs, racks) ==
     IF s.kind = "Simple" THEN SimpleReplicas(ring, i, s.rf)
-    ELSE NTSModern(ring, dc, rack, i, s.rfs)
+    ELSE NTSModern(ring, dcs, racks, i, s.rfs)
+ReplicasAt(s, i) == ReplicasIn(s, i, dc, rack)
 
 Finish(s) ==
     /\ phase = "build" /\ Len(ring) = len
@@ -197,6 +204,7 @@ Finish(s) ==
     /\ expected' = [i \in 1..len |-> ReplicasAt(s, i)]
     /\ byKey' = [k \in 1..(2 * len + 1) |-> expected'[Lookup(len, k)]]
     /\ hist' = <<s>>
+    /\ dc0' = dc /\ rack0' = rack /\ log' = <<>>
     /\ UNCHANGED <<len, ring, dc, rack>>
 
 \* ALTER KEYSPACE ... WITH replication = s: a keyspace schema refresh installs new settings while the driver
@@ -205,18 +213,38 @@ Finish(s) ==
 \* (driver side: Metadata._update_keyspace / _rebuild_all -> _keyspace_updated -> TokenMap.rebuild_keyspace,
 \* cassandra/metadata.py 163-194, 253-259, 1740-1753)
 AlterReplication(s) ==
-    /\ phase = "done" /\ Len(hist) <= MaxAlters
+    /\ phase = "done" /\ Len(hist) <= MaxAlters /\ Len(log) < MaxOps
     /\ s \in Strategies /\ s # strat
     /\ strat' = s
     /\ expected' = [i \in 1..len |-> ReplicasAt(s, i)]
     /\ byKey' = [k \in 1..(2 * len + 1) |-> expected'[Lookup(len, k)]]
     /\ hist' = Append(hist, s)
-    /\ UNCHANGED <<len, ring, dc, rack, phase>>
+    /\ log' = Append(log, [op |-> "alter", s |-> s])
+    /\ UNCHANGED <<len, ring, dc, rack, phase, dc0, rack0>>
+
+\* A node is moved to another rack / datacenter (re-provisioned under the same address, snitch change): the next
+\* node-list refresh reports it there, with the same tokens.  From then on placement is computed with the CURRENT
+\* locations, also for ranges whose replicas were looked up (and cached) before.
+\* (driver side: ControlConnection._refresh_node_list_and_token_map -> _update_location_info ->
+\* should_rebuild_token_map -> Metadata.rebuild_token_map: new TokenMap, empty replica cache;
+\* cassandra/cluster.py 3881-4033, cassandra/metadata.py 274-301)
+NumMoves == Cardinality({j \in 1..Len(log) : log[j].op = "move"})
+MoveHost(h, d, r) ==
+    /\ phase = "done" /\ NumMoves < MaxMoves /\ Len(log) < MaxOps
+    /\ h \in 1..NHosts /\ d \in 1..MaxDCs /\ r \in 1..MaxRacks
+    /\ <<d, r>> # <<dc[h], rack[h]>>
+    /\ dc' = [dc EXCEPT ![h] = d]
+    /\ rack' = [rack EXCEPT ![h] = r]
+    /\ expected' = [i \in 1..len |-> ReplicasIn(strat, i, dc', rack')]
+    /\ byKey' = [k \in 1..(2 * len + 1) |-> expected'[Lookup(len, k)]]
+    /\ log' = Append(log, [op |-> "move", h |-> h, d |-> d, r |-> r])
+    /\ UNCHANGED <<len, ring, phase, strat, hist, dc0, rack0>>
 
 Next == \/ \E h \in 1..MaxHosts : OldToken(h)
         \/ \E d \in 1..MaxDCs, r \in 1..MaxRacks : NewToken(d, r)
         \/ \E s \in Strategies : Finish(s)
         \/ \E s \in Strategies : AlterReplication(s)
+        \/ \E h \in 1..MaxHosts, d \in 1..MaxDCs, r \in 1..MaxRacks : MoveHost(h, d, r)
 
 Spec == Init /\ [][Next]_vars
 
@@ -259,12 +287,14 @@ LookupOK ==
     Done => /\ \A i \in 1..L : byKey[2 * i] = expected[i] /\ byKey[2 * i - 1] = expected[i]
             /\ byKey[2 * L + 1] = expected[1]
 
-\* replicas depend on the current settings only, whatever the keyspace's settings were before
+\* replicas depend on the current settings and the current host locations only, whatever they were before
 CurrentSettingsOnly ==
     Done => /\ hist # <<>> /\ strat = hist[Len(hist)]
             /\ expected = [i \in 1..L |-> ReplicasAt(strat, i)]
 
 \* vacuity witnesses (expected to be VIOLATED)
+Witness_MoveChangesReplicas ==
+    ~(Done /\ NumMoves > 0 /\ hist = <<strat>> /\ \E i \in 1..L : ReplicasIn(strat, i, dc0, rack0) # expected[i])
 Witness_AlterChangesReplicas ==
     ~(Done /\ Len(hist) >= 2 /\ \E i \in 1..L : ReplicasAt(hist[Len(hist) - 1], i) # expected[i])
 Witness_AlterSimpleToNTS ==
